@@ -89,7 +89,7 @@ CHECKS = {
               "non-trivial = dir != '.'"),
         assumptions=["symbolic links are not created (the statement excludes them)", "for MkdirAll/RemoveAll error paths only the sentinel class and type are compared"],
         legs=[dict(name=k, run="^Test%s$" % n, quick=q, thorough=q * 10, shards=2) for (k, n, q) in [
-            ("mem", "Mem", 250), ("mount", "Mount", 250), ("osfs", "OSFS", 120), ("openonly", "OpenOnly", 120), ("subsub", "SubSub", 150)]],
+            ("mem", "Mem", 250), ("mount", "Mount", 250), ("osfs", "OSFS", 120), ("openonly", "OpenOnly", 120), ("brokenlist", "BrokenList", 120), ("subsub", "SubSub", 150)]],
     ),
     "C06": dict(
         pkg="c06", level="exploration",
